@@ -10,5 +10,5 @@ CONSTANTS
     Depth = 16
 SPECIFICATION SpecProg
 CHECK_DEADLOCK TRUE
-INVARIANTS TypeOK Inv_KnownFromExports Inv_ArmorsOfKnownKeys PrintProgram
+INVARIANTS TypeOK Inv_KnownFromExports Inv_ArmorsOfKnownKeys Inv_ProgFits PrintProgram
 PROPERTIES StepOK
